@@ -14,10 +14,14 @@ Contract(M, "_is_inside", {"py": "int", "px": "int", "h": "int", "w": "int"}, re
          ensures=["result == (0 <= py and py < h and 0 <= px and px < w)"], props=("C14",))
 
 Contract(M, "_distance", {"x1": "float", "y1": "float", "x2": "float", "y2": "float"}, result="float",
-         ensures=["same(result, pdist(x1, y1, x2, y2))"], props=("C14",), axioms=("sqrt",))
+         ensures=["same(result, pdist(x1, y1, x2, y2))",
+                  "not (isfinite(x1) and isfinite(y1) and isfinite(x2) and isfinite(y2)) or (isfinite(result) and result >= 0)"],
+         props=("C14",), axioms=("sqrt",))
 
 Contract(M, "_heuristic", {"x1": "float", "y1": "float", "x2": "float", "y2": "float"}, result="float",
-         ensures=["same(result, pdist(x1, y1, x2, y2))"], props=("C14",), axioms=("sqrt",))
+         ensures=["same(result, pdist(x1, y1, x2, y2))",
+                  "not (isfinite(x1) and isfinite(y1) and isfinite(x2) and isfinite(y2)) or (isfinite(result) and result >= 0)"],
+         props=("C14",), axioms=("sqrt",))
 
 # ---- _min_cost_pixel_id: an open cell of minimum cost below the (h+w)^2 cap, or (NONE, NONE) when there is none
 _BIG = "(height + width) * (height + width)"
@@ -86,4 +90,85 @@ Contract(
     types={"min_distance": "float"},
     props=("C14",), axioms=("sqrt",),
     native={"opts": {"maxdim": 4, "int_lo": 0, "int_hi": 3, "pool": [0.0, 1.0, 2.0, float("nan")]}},
+)
+
+# ---- _reconstruct_path: follows parent pointers from the goal; only path_img is written (partial correctness, no variant)
+_INR = lambda y, x: "(0 <= %s and %s < h and 0 <= %s and %s < w)" % (y, y, x, x)
+Contract(
+    M, "_reconstruct_path",
+    {"path_img": "f2", "parent_ys": "i2", "parent_xs": "i2", "cost": "f2", "start_py": "int", "start_px": "int", "goal_py": "int", "goal_px": "int"},
+    lets=[("h", "path_img.shape[0]"), ("w", "path_img.shape[1]")],
+    requires=[
+        "parent_ys.shape[0] == h and parent_ys.shape[1] == w and parent_xs.shape[0] == h and parent_xs.shape[1] == w and cost.shape[0] == h and cost.shape[1] == w",
+        "%s and %s" % (_INR("start_py", "start_px"), _INR("goal_py", "goal_px")),
+        # every parent pointer is NONE or a cell, and the parent of a cell that has one has one itself (parents are closed cells)
+        "all((parent_ys[i, j] == -1) == (parent_xs[i, j] == -1) for i in range(0, h) for j in range(0, w))",
+        "all(parent_ys[i, j] == -1 or (%s and parent_ys[parent_ys[i, j], parent_xs[i, j]] != -1) for i in range(0, h) for j in range(0, w))"
+        % _INR("parent_ys[i, j]", "parent_xs[i, j]"),
+    ],
+    modifies=("path_img",),
+    ensures=["all(same(path_img[i, j], old(path_img[i, j])) or same(path_img[i, j], cost[i, j]) for i in range(0, h) for j in range(0, w))"],
+    loops={0: LoopSpec("while", inv=[
+        "path_img.shape[0] == h and path_img.shape[1] == w",
+        "%s and parent_ys[current_y, current_x] != -1" % _INR("current_y", "current_x"),
+        "all(same(path_img[i, j], old(path_img[i, j])) or same(path_img[i, j], cost[i, j]) for i in range(0, h) for j in range(0, w))",
+    ])},
+    props=("C14",),
+    native={"skip": True},
+    notes="termination of the parent walk is not proved (partial correctness)",
+)
+
+# ---- _a_star_search: structural invariant of the search (parents are closed crossable neighbours, distances add the step length)
+_CR = lambda y, x: "(not not_crossable(data[%s, %s], barriers, nb))" % (y, x)
+_HASP = lambda y, x: "parent_ys[%s, %s] != -1" % (y, x)
+_J = [
+    "parent_ys.shape[0] == height and parent_ys.shape[1] == width and parent_xs.shape[0] == height and parent_xs.shape[1] == width and "
+    "d_from_start.shape[0] == height and d_from_start.shape[1] == width and cost.shape[0] == height and cost.shape[1] == width and "
+    "is_open.shape[0] == height and is_open.shape[1] == width and is_closed.shape[0] == height and is_closed.shape[1] == width",
+    "all((parent_ys[i, j] == -1) == (parent_xs[i, j] == -1) for i in range(0, height) for j in range(0, width))",
+    "all(parent_ys[i, j] == -1 or %s for i in range(0, height) for j in range(0, width))" % _INR("parent_ys[i, j]", "parent_xs[i, j]").replace(" h ", " height ").replace("< h ", "< height ").replace("< w", "< width"),
+    "parent_ys[start_py, start_px] == start_py and parent_xs[start_py, start_px] == start_px",
+    # a cell (other than the start) with a parent: the parent is closed, the cell is crossable and open or closed
+    "all(parent_ys[i, j] == -1 or (i == start_py and j == start_px) or (is_closed[parent_ys[i, j], parent_xs[i, j]] and %s and "
+    "(is_open[i, j] or is_closed[i, j])) for i in range(0, height) for j in range(0, width))" % _CR("i", "j"),
+    # ... it is a neighbour of its parent under the given neighbourhood structure
+    "all(parent_ys[i, j] == -1 or (i == start_py and j == start_px) or any(i == parent_ys[i, j] + neighbor_ys[k] and "
+    "j == parent_xs[i, j] + neighbor_xs[k] for k in range(0, nn)) for i in range(0, height) for j in range(0, width))",
+    # ... and its distance is the parent's distance plus the length of that step
+    "all(parent_ys[i, j] == -1 or (i == start_py and j == start_px) or same(d_from_start[i, j], d_from_start[parent_ys[i, j], parent_xs[i, j]] "
+    "+ pdist(float(parent_xs[i, j]), float(parent_ys[i, j]), float(j), float(i))) for i in range(0, height) for j in range(0, width))",
+    "all(not (is_open[i, j] and is_closed[i, j]) for i in range(0, height) for j in range(0, width))",
+    "all((not (is_open[i, j] or is_closed[i, j])) or (parent_ys[i, j] != -1 and %s) for i in range(0, height) for j in range(0, width))" % _CR("i", "j"),
+    "all(isfinite(d_from_start[i, j]) and isfinite(cost[i, j]) for i in range(0, height) for j in range(0, width))",
+    # the start is the first cell to be closed: until then no other cell has a parent
+    "is_closed[start_py, start_px] or all(parent_ys[i, j] == -1 or (i == start_py and j == start_px) for i in range(0, height) for j in range(0, width))",
+]
+_BIGC = "(height + width) * (height + width)"
+Contract(
+    M, "_a_star_search",
+    {"data": "f2", "path_img": "f2", "start_py": "int", "start_px": "int", "goal_py": "int", "goal_px": "int", "barriers": "f1",
+     "neighbor_ys": "i1", "neighbor_xs": "i1"},
+    lets=[("height", "data.shape[0]"), ("width", "data.shape[1]"), ("nb", "barriers.shape[0]"), ("nn", "neighbor_ys.shape[0]")],
+    requires=[
+        "path_img.shape[0] == height and path_img.shape[1] == width and neighbor_xs.shape[0] == nn",
+        "0 <= start_py and start_py < height and 0 <= start_px and start_px < width",
+        "0 <= goal_py and goal_py < height and 0 <= goal_px and goal_px < width",
+    ],
+    modifies=("path_img",),
+    loops={
+        0: LoopSpec("while", inv=_J + [
+            # num_open is recomputed as np.sum(is_open) at the end of every iteration
+            "(num_open > 0) == any(is_open[i, j] for i in range(0, height) for j in range(0, width))",
+        ], assume=[
+            ("all((not is_open[i, j]) or cost[i, j] < %s for i in range(0, height) for j in range(0, width))" % _BIGC,
+             "the estimated cost of an open cell is below the (h+w)^2 cap of _min_cost_pixel_id (needs a path-length bound; not proved)"),
+        ]),
+        1: LoopSpec("for", index="k", inv=_J + [
+            "0 <= py and py < height and 0 <= px and px < width and is_closed[py, px] and not is_open[py, px]",
+        ]),
+    },
+    props=("C14",),
+    axioms=("sqrt",),
+    native={"skip": True},
+    notes="structural invariant only; optimality / existence are bounded",
 )
